@@ -201,3 +201,14 @@ def key_universe(T, limit=3):
     for s in ("k0", "5", "zz"):
         add(s)
     return keys[:limit]
+
+
+def known_defect_suffix(T, d, real_result):
+    """Classify a decode mismatch: does the real result equal the reference with the 'null union member swallows
+    unmatched input' defect switched on?  Returns a signature suffix or None."""
+    from vf import oracle
+
+    st, o = call(oracle.ref_decode, T, d, None, oracle.NONE_FALLBACK)
+    if st == "ok" and deep_eq(real_result, o):
+        return "union-none-fallback"
+    return None
